@@ -263,6 +263,7 @@ def run_instance(modname, obname, prop, params, cfg):
         core.INT_FIRST = False
         instr.RANDOM_SYMBOLIC = True
         core.DIV_WITNESS = True
+        instr.MERGE_CONDITIONALS = False
         return ob.fn(ex, **params)
 
     try:
